@@ -99,28 +99,10 @@ theorem popRnd_err {tp : Tape} {e : Fault} (h : popRnd tp = .error e) : TapeFaul
   · simp at h; exact Or.inr h.symm
 
 theorem popPick_ok {common : List Nat} {τ : Nat} {tp tp' : Tape} (h : popPick common tp = .ok (τ, tp')) :
-    tp.length = tp'.length + 1 := by
-  unfold popPick at h
-  split at h
-  · simp at h
-  · split at h
-    · simp at h
-    · split at h
-      · simp at h; obtain ⟨_, rfl⟩ := h; simp
-      · simp at h
-    · simp at h
+    tp.length = tp'.length + 1 := (popChoice_ok h).2
 
 theorem popPick_err {common : List Nat} {tp : Tape} {e : Fault} (hne : common ≠ [])
-    (h : popPick common tp = .error e) : TapeFault tp e := by
-  unfold popPick at h
-  split at h
-  · rename_i he; simp at he; exact absurd he hne
-  · split at h
-    · simp at h; exact Or.inl ⟨h.symm, rfl⟩
-    · split at h
-      · simp at h
-      · simp at h; exact Or.inr h.symm
-    · simp at h; exact Or.inr h.symm
+    (h : popPick common tp = .error e) : TapeFault tp e := popChoice_err hne h
 
 theorem instantiate_ok {p p' : Prim} {tp tp' : Tape} (h : instantiate p tp = .ok (p', tp')) :
     (p'.ret = p.ret ∧ p'.args = p.args ∧ p'.kind = p.kind ∧ p'.name = p.name) ∧
